@@ -362,8 +362,12 @@ class BaseRunner(ABC, Generic[_Request]):
                 # have all started to be handled before we proceed to close idle connections.
                 await asyncio.sleep(0)
                 self._server.pre_shutdown()
-                await self.shutdown()
-                await self._server.shutdown(self._shutdown_timeout)
+                try:
+                    await self.shutdown()
+                finally:
+                    # A failing shutdown hook must not leave the accepted
+                    # connections open either.
+                    await self._server.shutdown(self._shutdown_timeout)
         finally:
             # A failing shutdown hook must not leave the cleanup contexts
             # that started without their cleanup.
